@@ -30,16 +30,31 @@ def message():
 
 fixed = {bytes([7]) * n for n in (253, 254, 255, 256, 507, 508, 509, 510)} | {bytes([7]) * 254 + b"\0" + bytes([9]) * 254}
 msgs = sorted({message() for _ in range(count)} | fixed, key=lambda m: (len(m), m))
+import io
+
+
+def send(m, command):
+    """the client's send path: Output.push + Output.flush onto a channel object"""
+    o = mod.Output()
+    o._chan = io.BytesIO()
+    if not command:
+        o._encode = mod.encode_cobs
+    o.push(bytes(m))
+    o.flush()
+    return o._chan.getvalue()
+
+
 n = 0
 with open(out, "wb") as f:
     for m in msgs:
-        frame = bytes(mod.encode_cobs(bytearray(m)))
+        # every third message (and every short one) goes through the Output class, the others through the encoder function
+        frame = send(m, False) if (n % 3 == 0 or len(m) < 4) else bytes(mod.encode_cobs(bytearray(m)))
         case = b"\xfe" + struct.pack("<H", len(m)) + m + frame
         f.write(struct.pack("<I", len(case)) + case)
         n += 1
         # the client's command framing (zero terminated text) admits zero-free messages only
         if 0 not in m and len(m) < 2000 and n % 4 == 0:
-            frame = bytes(mod.encode_command(bytearray(m)))
+            frame = send(m, True) if len(m) < 4 else bytes(mod.encode_command(bytearray(m)))
             case = b"\xfd" + struct.pack("<H", len(m)) + m + frame
             f.write(struct.pack("<I", len(case)) + case)
             n += 1
